@@ -25,8 +25,8 @@ type textChecker struct {
 	ok       bool
 	// statistics
 	Compared, Unsupported, BothRefuse int
-	mismatches                       int
-	Declarative, DeclarativeRejected int // profiles the model calls declarative and well scoped (the premise of the safety theorem)
+	mismatches                        int
+	Declarative, DeclarativeRejected  int // profiles the model calls declarative and well scoped (the premise of the safety theorem)
 }
 
 func newTextChecker(e *core.Env, res *core.Result) *textChecker {
